@@ -347,8 +347,11 @@ void rows(std::string const &e, std::vector<T> const &as, std::vector<T> const &
 }
 
 template <class T>
+void bit_test_all();
+template <class T>
 void unsigned_fns()
 {
+  bit_test_all<T>();
   std::string t = tn<T>();
   auto as = values2<T>("binary-a-" + t);
   auto bs = values2<T>("binary-b-" + t);
@@ -546,9 +549,49 @@ void unsigned_fns()
   }
 }
 
+// bit::test(value, mask) for ARBITRARY masks (not only single bits) and for signed types, where value & mask may be
+// negative: true exactly when the two bit patterns have a common bit
+template <class T>
+void bit_test_all()
+{
+  using U = std::make_unsigned_t<T>;
+  std::string const t = tn<T>();
+  std::string const e = "bit::test<" + t + ">";
+  if (!vf::entry_enabled(e))
+    return;
+  vf::set_entry(e);
+  std::vector<T> vals;
+  if constexpr (sizeof(T) == 1)
+    for (int v = std::numeric_limits<T>::min(); v <= std::numeric_limits<T>::max(); ++v)
+      vals.push_back(static_cast<T>(v));
+  else
+    vals = lattice<T>();
+  std::size_t idx = 0;
+  for (T v : vals)
+  {
+    if (!vf::mine(idx++))
+      continue;
+    if (!vf::begin_case("value=%s against %zu masks", s128(v).c_str(), vals.size()))
+      continue;
+    vf::note_distinct(vf::hash_mix(vf::hash_str(e), static_cast<std::uint64_t>(static_cast<U>(v))));
+    for (T m : vals)
+    {
+      vf::operands(static_cast<long long>(v), static_cast<long long>(m));
+      bool const got = fcppt::bit::test(v, fcppt::bit::mask<T>{m});
+      bool const want = (static_cast<U>(v) & static_cast<U>(m)) != 0;
+      if (got != want)
+        bad(e + "/value", "bit::test", v, m, got ? "true" : "false", want ? "true" : "false");
+      if (v < 0 && m < 0)
+        VF_COUNT("bit::test/both-sign-bits-set");
+      vf::add_evals(1);
+    }
+  }
+}
+
 template <class T>
 void signed_fns()
 {
+  bit_test_all<T>();
   std::string t = tn<T>();
   auto as = values2<T>("binary-a-" + t);
   auto bs = values2<T>("binary-b-" + t);
